@@ -247,6 +247,9 @@ type readerFunc func([]byte) (int, error)
 func (f readerFunc) Read(p []byte) (int, error) { return f(p) }
 
 func (f *File) Read(b []byte) (int, error) {
+	if f == nil {
+		return 0, os.ErrInvalid // like (*os.File)(nil)
+	}
 	s := active.Load()
 	if s == nil || f.plan == nil {
 		n, err := f.File.Read(b)
@@ -264,6 +267,9 @@ func (f *File) Read(b []byte) (int, error) {
 }
 
 func (f *File) Seek(offset int64, whence int) (int64, error) {
+	if f == nil {
+		return 0, os.ErrInvalid
+	}
 	r, err := f.File.Seek(offset, whence)
 	if s := active.Load(); s != nil {
 		if err == nil && f.plan != nil && f.plan.ErrAt >= 0 {
@@ -280,6 +286,9 @@ func (f *File) Seek(offset int64, whence int) (int64, error) {
 }
 
 func (f *File) Close() error {
+	if f == nil {
+		return os.ErrInvalid
+	}
 	err := f.File.Close()
 	if s := active.Load(); s != nil {
 		s.fsLog("close", f.path, 0, f.off)
